@@ -325,6 +325,9 @@ def finish(ctx, audit_res, audit_log, build_ok, build_log, rule, extra_cov=None,
     )
     if extra_cov:
         cov.update(extra_cov)
+    if obl == 0:   # no theorem registered for this property yet: the schema's proof keys would be vacuous, drop them
+        for k_ in ('obligations', 'discharged'):
+            cov.pop(k_, None)
     ev = dict(property_id=prop, tier=ctx.tier, seed=ctx.seed, level='proof', coverage=cov,
               assumptions=assumptions or [], wall_s=round(ctx.elapsed(), 2), violations=violations)
     write_json_atomic(os.path.join(VERIF, 'evidence', '%s.json' % prop), ev)
